@@ -80,6 +80,12 @@ pub fn run_case(c: &Case) -> (Vec<(String, String)>, bool) {
                 any_err |= !e.steps.last().unwrap().real.is_ok();
                 break;
             }
+            if k == 0 && matches!(m, Msg::Raw(_)) && p.pattern.is_oneway() {
+                // one-way pattern, first message of another honest session: a valid message, and the
+                // initiator is finished after its only write whatever the responder receives - not judged
+                e.step(&Op::HsRead { side: r, msg: m.clone(), cap: Cap::Roomy });
+                break;
+            }
             delivered_altered = true;
             // A complete first message of a parallel session is a *valid* first message (Noise has no
             // replay protection for it): the receiving read cannot tell, so clause (b) does not apply;
